@@ -19,3 +19,40 @@ TRUSTED_BASE = [
 ]
 TRUSTED_EXTRA = {}
 ASSUMPTIONS = {}
+
+_NET_NOTE = ("Trusted: Lean kernel; compiled driver; tokenizer + Sv parser (lossless check per input) + Net extraction; "
+             "Hw.lean reading of the RTL (addr_decode semantics from common_cells, not in the repository). "
+             "The universal claim over descriptions rests on the model-vs-implementation correspondence on explored inputs.")
+
+def _lv(text, technique, note=_NET_NOTE):
+    return {"text": text, "technique": technique, "note": note}
+
+LEVEL = {
+    "C01": _lv("Verified decider (critical-point enumeration, proved equivalent to the for-all-addresses statement) evaluated on every explored real output; generator-level theorems over the Lean model tied by correspondence.",
+               "Lean 4 theorem (decider <-> spec over all addresses) + differential correspondence"),
+    "C02": _lv("Walk of the hardware's table lookup over the emitted netlist decided in Lean for every communicating pair of every explored output; fuel-independence and no-revisit proved.",
+               "Lean 4 theorems on the netlist walk + verified decider on real outputs"),
+    "C03": _lv("Route words decoded LSB-first over the emitted netlist in Lean for every pair of every explored output; pack/unpack theorem for the encoder model.",
+               "Lean 4 theorems (mixed-radix pack/unpack) + verified decider on real outputs"),
+    "C04": _lv("Per-port frame condition checked on the emitted netlist; lock-step theorem frame => same walk as ideal grid; evaluated for every pair of every explored XY output.",
+               "Lean 4 lock-step simulation theorem + verified decider on real outputs"),
+    "C05": _lv("Drivers/readers of every signal and the four neighbours of every router port computed from the emitted netlist by the Lean decider on every explored output.",
+               "Lean 4 decider over the emitted netlist + generator theorem on the model"),
+    "C06": _lv("Link set denoted by the description (written from docs/floogen.md in Lean) compared with the emitted port attachments on every explored output.",
+               "Lean 4 specification of the described topology + decider on real outputs"),
+    "C07": _lv("Identities, enum names/values, widths decided on every explored output; uniqueness/density theorems over the model.",
+               "Lean 4 decider + generator theorems on the model"),
+    "C08": _lv("Top-level ports, element-wise chimney bindings, role enables and AXI cfg records decided on every explored output.",
+               "Lean 4 decider on real outputs"),
+    "C09": _lv("Channel-dependency graph of all emitted routes certified acyclic by a rank function checked in Lean (rank => acyclic proved for any graph); negative verdicts carry an explicit cycle.",
+               "Lean 4 theorem (rank certificate => acyclic) + certified decider on real outputs"),
+    "C11": _lv("Every emitted instance, macro invocation and floo_pkg name checked against facts regenerated from hw/ on every run.",
+               "regenerated facts (translator) + Lean 4 decider"),
+    "C12": _lv("Token-level bracket balance (verified Dyck checker), declared-once, used-is-declared, literal and field fit decided on every explored output.",
+               "Lean 4 verified checkers on the emitted token stream"),
+    "C13": _lv("Every emitted count compared with the separately extracted size of what it sizes on every explored output.",
+               "Lean 4 decider + generator theorems on the model"),
+    "C14": _lv("Hop count of every emitted route compared with a distance potential checked in Lean (potential => lower bound on every path, proved for any graph).",
+               "Lean 4 theorem (potential lower bound) + certified decider on real outputs"),
+}
+NOT_APPLICABLE = {}
